@@ -253,6 +253,91 @@ fn slice<E: Elem>(ealign: usize, len: usize) -> Value {
     lifecycle(&mut arena, Obs { tag, addr, align_needed: ealign, data_len: len * E::SIZE, salt, extra }, &read)
 }
 
+// ------------------------------------------------------------------ a CLIENT pointer kind
+// `gc_arena::meta` lets a client choose the per-value metadata kept in the block: here a slice kind whose
+// length is a u32 (every kind that ships with the crate uses () or usize, whose size is a multiple of 8).
+pub struct ShortSliceMeta;
+impl<E, M> gc_arena::meta::PtrMeta<[E], M> for ShortSliceMeta {
+    type PtrMetadata = u32;
+    type Thin = ();
+    fn to_thin(_type_meta: &M, fat: *const [E]) -> *const () {
+        fat as *const ()
+    }
+    fn from_thin(_type_meta: &M, thin: *const (), len: u32) -> *const [E] {
+        std::ptr::slice_from_raw_parts(thin as *const E, len as usize)
+    }
+}
+impl<E, M> gc_arena::meta::AllocMeta<[E], M> for ShortSliceMeta {
+    fn layout(_type_meta: &M, len: u32) -> Option<std::alloc::Layout> {
+        std::alloc::Layout::array::<E>(len as usize).ok()
+    }
+}
+type GcShort<'gc, E> = gc_arena::GcFat<'gc, [E], (), ShortSliceMeta>;
+type GcThinShort<'gc, E> = gc_arena::GcThin<'gc, [E], (), ShortSliceMeta>;
+
+fn cslice<E: Elem>(ealign: usize, len: usize) -> Value {
+    ALLOC.reset();
+    let mut arena = new_arena();
+    let tag = 1;
+    let salt = len + E::SIZE + 3;
+    let mut extra = json!({});
+    let addr = arena.mutate_root(|mc, root| {
+        let v: Vec<E> = (0..len).map(|i| E::make(i, salt)).collect();
+        ALLOC.arm(tag);
+        // SAFETY: ShortSliceMeta is a correct PtrMeta + AllocMeta for [E]; every element is written before assume_init
+        let g: GcShort<'_, Static<E>> = unsafe {
+            let mut b = gc_arena::GcBuilder::<[Static<E>], (), ShortSliceMeta>::new_with_type_and_ptr_meta::<gc_arena::meta::UnitTypeMeta>(len as u32);
+            ALLOC.disarm();
+            let first = b.as_ptr() as *mut Static<E>;
+            for (i, e) in v.into_iter().enumerate() {
+                first.add(i).write(Static(e));
+            }
+            b.assume_init(mc)
+        };
+        let thin: GcThinShort<'_, Static<E>> = Gc::as_thin(g);
+        let fat: GcShort<'_, Static<E>> = Gc::as_fat(thin);
+        let p = Gc::as_ptr(g);
+        let back: GcShort<'_, Static<E>> = unsafe { Gc::from_ptr_with_kind(p) };
+        extra = json!({
+            "thin_addr_same": Gc::as_ptr(thin) as *const u8 as usize == p as *const u8 as usize,
+            "thin_len": thin.len() as i64, "fat_len": fat.len() as i64, "fat_ptr_eq": Gc::ptr_eq(g, fat),
+            "ptr_rt": Gc::ptr_eq(g, back) && back.len() == len, "len": g.len() as i64,
+            "thin_ptr_size": std::mem::size_of_val(&thin) as i64,
+        });
+        root.held.push(Gc::erase(Gc::erase_kind(fat)));
+        p as *const u8 as usize
+    });
+    let read = move |arena: &A, _k: usize| {
+        arena.mutate(|_mc, root| {
+            let e = *root.held.first()?;
+            // reconstruct the slice from the erased pointer: the length lives in the GC block
+            let thin: GcThinShort<'_, Static<E>> = unsafe { Gc::from_thin_ptr_with_kind(Gc::as_ptr(e)) };
+            let fat = Gc::as_fat(thin);
+            let mut bytes = Vec::new();
+            for x in fat.iter() {
+                bytes.extend(x.0.bytes());
+            }
+            Some((Gc::as_ptr(fat) as *const u8 as usize, bytes))
+        })
+    };
+    lifecycle(&mut arena, Obs { tag, addr, align_needed: ealign, data_len: len * E::SIZE, salt, extra }, &read)
+}
+
+fn probe_cslice(esize: usize, ealign: usize, len: usize) -> Option<Value> {
+    Some(match (esize, ealign) {
+        (0, 1) => cslice::<()>(1, len),
+        (1, 1) => cslice::<u8>(1, len),
+        (2, 2) => cslice::<u16>(2, len),
+        (4, 4) => cslice::<u32>(4, len),
+        (8, 8) => cslice::<u64>(8, len),
+        (16, 16) => cslice::<u128>(16, len),
+        (3, 1) => cslice::<[u8; 3]>(1, len),
+        (12, 4) => cslice::<[u32; 3]>(4, len),
+        (32, 32) => cslice::<E32>(32, len),
+        _ => return None,
+    })
+}
+
 fn probe_slice(esize: usize, ealign: usize, len: usize) -> Option<Value> {
     Some(match (esize, ealign) {
         (0, 1) => slice::<()>(1, len),
@@ -393,6 +478,7 @@ pub fn probe(v: &Value) -> Value {
     let obs = match p["kind"].as_str().unwrap_or("") {
         "sized" => probe_sized(g("bytes"), g("align")),
         "slice" => probe_slice(g("esize"), g("ealign"), g("len")),
+        "cslice" => probe_cslice(g("esize"), g("ealign"), g("len")),
         "str" => probe_str(g("len")),
         "swh" => probe_swh(g("hsize"), g("halign"), g("esize"), g("ealign"), g("len")),
         _ => None,
